@@ -106,7 +106,26 @@ func Minimise(t *Trace, want *Violation, budget time.Duration) *Trace {
 		}
 		return out
 	}
-	_ = blocks
+	// whole blocks first, from the last to the first (cheap, removes most of a trace)
+	for pass := 0; pass < 2 && time.Now().Before(deadline); pass++ {
+		bl := blocks(ops)
+		for i := len(bl) - 1; i >= 0 && time.Now().Before(deadline); i-- {
+			cand := append(append([]Op{}, ops[:bl[i][0]]...), ops[bl[i][1]:]...)
+			if len(cand) > 0 && test(cand) {
+				ops = cand
+			}
+		}
+	}
+	// then every single op inside the remaining blocks except begin/end
+	for i := len(ops) - 1; i >= 0 && time.Now().Before(deadline); i-- {
+		if i >= len(ops) || ops[i].K == "begin" || ops[i].K == "end" {
+			continue
+		}
+		cand := append(append([]Op{}, ops[:i]...), ops[i+1:]...)
+		if test(cand) {
+			ops = cand
+		}
+	}
 	n := 2
 	for len(ops) >= 2 && time.Now().Before(deadline) {
 		chunk := (len(ops) + n - 1) / n
